@@ -21,6 +21,20 @@ CHECKS.update({
  "C05": ("vseq", "model_checking", "exhaustive enumeration of all ordered pairs (saved type, loaded type) and of all single-byte header replacements against a three-valued wire-grammar oracle",
          "Every ordered pair of enumerated types is saved as one and loaded as the other with schema checking: pairs whose wire grammars differ must fail with a schema error before the payload is interpreted, pairs with identical schema-shaped grammars must load the value, the rest makes no claim; every header byte x 255 replacement values must be rejected before any payload byte is read when magic/lib version/data version are wrong.", "§5 C05"),
 })
+CHECKS.update({
+ "C07": ("vseq", "fault_enumeration", "exhaustive enumeration of every cut offset of saved files in four containers, in-memory and file API",
+         "Every strict prefix of every saved file (about 200 (type, value) cases x 4 containers, file API for 7 types, multi-block compressed/encrypted payloads with a stated subset of offsets) must load as an error or as the original value; never another value, never a panic.", "§5 C07"),
+ "C08": ("vseq", "fault_enumeration", "deviation-bounded enumeration of environment answers of instrumented Read/Write streams (every call index x {short, Interrupted, 3 hard errors, Ok(0)}; 1 deviation quick, 2 thorough) plus chunk schedules",
+         "Benign deviations and chunkings must give identical bytes / values; hard faults must surface as Err with the accepted bytes a prefix of the fault-free output; no panic (including Drop), no hang (call budget).", "§5 C08"),
+ "C13": ("vschema", "model_checking", "exhaustive enumeration of schema trees (depth 2 quick / 3 thorough) and of all single wire-altering mutations, against an independent schema codec for formats 0/1/2",
+         "Every enumerated schema tree must persist exactly at formats 1 and 2 (real bytes == model bytes), format-0 bytes must decode to the tree minus layout, diff_schema must be reflexive and must report every single wire-altering mutation in both argument orders.", "§5 C13"),
+ "C14": ("vseq", "fault_enumeration", "exhaustive enumeration of single-byte replacements (all 255 values on small files), truncations and the edit-distance-1 password neighbourhood of encrypted files",
+         "Every modified or truncated encrypted file and every other password must yield Err: never a value, never a panic; in-memory CryptoReader and load_encrypted_file.", "§5 C14"),
+ "C15": ("vabi15", "model_checking", "breadth-first search over sequences of ledger runs across a generated revision graph (5 interface kinds x ~20 edits), against a reference ledger model",
+         "Every run sequence up to depth 3 (quick) / to the fixpoint (thorough) is executed on the real verify_compatiblity in a fresh directory; Ok/Err/no-panic and the resulting file set must match the model built from the edit labels.", "§5 C15"),
+ "C16": ("vconc", "model_checking", "stateless exploration of all schedules of closed 2-3 thread harnesses up to a preemption bound (iterative context bounding) under shuttle with a custom DFS scheduler, lock operations of the real code hooked",
+         "All schedules with at most 2 (quick) / 3..unbounded (thorough) preemptions of 15 scenarios on the real savefile-abi caches: no deadlock, livelock, panic or lock leak, results equal to every sequential order, caches consistent afterwards.", "§5 C16"),
+})
 TODO = {}
 props = [json.loads(l)["id"] for l in open("/verif/properties.jsonl")]
 checks = []
@@ -39,7 +53,7 @@ for pid in props:
         "technique": tech,
     })
 na = [{"property_id": p, "reason": TODO.get(p, "check not built yet in this revision (see DESIGN.md Appendix D for the build order); not claimed")} for p in props if p not in CHECKS]
-hooks_commits = []
+hooks_commits = ["55dc259"]
 m = {
  "version": 1,
  "setup_cmd": "./setup.sh",
@@ -51,7 +65,10 @@ m = {
    "add_only": True,
  },
  "engines": [
-   {"name": "vseq", "path": "engine/seq", "serves_properties": [p for p in props if p in CHECKS and CHECKS[p][0]=="vseq"], "kind_free_text": "sequential explicit-state enumeration on the real code against the reference model; child-process isolation with crash attribution"},
+   {"name": "vseq", "path": "engine/seq", "serves_properties": [p for p in props if p in CHECKS and CHECKS[p][0]=="vseq"], "kind_free_text": "sequential explicit-state / fault enumeration on the real code against the reference model; child-process isolation with crash attribution"},
+   {"name": "vschema", "path": "engine/schema13", "serves_properties": ["C13"], "kind_free_text": "schema tree enumeration against the independent schema codec"},
+   {"name": "vabi15", "path": "engine/abi_ledger", "serves_properties": ["C15"], "kind_free_text": "BFS over ledger run sequences"},
+   {"name": "vconc", "path": "engine/conc", "serves_properties": ["C16"], "kind_free_text": "shuttle-based preemption-bounded schedule enumeration of the real savefile-abi lock operations"},
  ],
  "checks": checks,
  "not_applicable": na,
